@@ -119,6 +119,23 @@ CHECKS["C18"] = dict(
     design="DESIGN.md §3 C18",
 )
 
+CHECKS["C02"] = dict(
+    level="exploration",
+    engine="simsched",
+    technique="property-based testing (Hypothesis) of generated sparse pyramids against a reference model of the 2x2 block reduction (RefCascade), outputs read with independent decoders; differential serial vs parallel (Engine A schedules, real multiprocessing sampled)",
+    text="Generated sparse leaf populations x formats/modes/parities x undefined-pixel patterns x stale files x tile filters x worker counts: tile existence and every pixel of every level are compared with the reference reduction; parallel results must equal serial ones.",
+    note="Trusts RefCascade, the independent decoders, Engine A for the schedule clause (real multiprocessing sampled). jpg judged approximately (+-6 levels on block-constant grey leaves). Floats: absolute tolerance 4*eps*max|leaf value|.",
+    design="DESIGN.md §3 C02",
+)
+CHECKS["C14"] = dict(
+    level="exploration",
+    engine="simsched",
+    technique="property-based testing (Hypothesis) of generated FITS pyramids; oracle = min/max over the generated leaf arrays beneath every tile vs the DATAMIN/DATAMAX headers read with astropy, and the WTML / Builder values vs the root's",
+    text="Generated sparse FITS pyramids (values incl. exact zeros, negatives, NaN regions; leaves written directly or painted in two read-modify-write passes) cascaded through Builder.cascade serially, on Engine A and on real multiprocessing; every tile's recorded range equals the true range of the leaves beneath it.",
+    note="Trusts astropy header I/O; float32 rounding tolerance 1.2e-7; a zero-valued WTML attribute may be omitted (format default).",
+    design="DESIGN.md §3 C14",
+)
+
 NOT_APPLICABLE = {}
 
 
